@@ -32,7 +32,7 @@ REGISTRY = dict(
     technique="Coq proof over hand model + trace correspondence (real erg builds vs extracted model) + extracted judge on observed runs",
     design="DESIGN.md §4 C20")
 
-KINDS_QUICK = ["dag", "diamond", "self", "cycle2", "cycle3", "chain", "random", "dag", "cycle2", "shared-cycle", "entry-cycle"]
+KINDS_QUICK = ["dag", "diamond", "self", "cycle2", "cycle3", "chain", "random", "cycle-tail", "cycle2", "shared-cycle", "entry-cycle"]
 
 
 def load_known(ctx):
@@ -240,6 +240,26 @@ def run(ctx):
         else:
             ctx.notes.append("NOTE stale-known-finding %s: witness no longer reproduces" % k.get("id"))
             print("NOTE stale-known-finding property=C20 %s" % k.get("id"))
+    if n_viol == 0 and corr:
+        # model and erg disagree: re-instantiate the disagreeing project shapes with the other textual orders of the
+        # imports and with a use of every imported name, build and run them, and judge
+        for x in corr[:ctx.scale(3, 8)]:
+            vs = G.order_variants(x["proj"], ctx.rng, ctx.scale(8, 30))
+            if not vs:
+                continue
+            ys = run_batch(ctx, erg, env, model, vs, [ctx.rng.randrange(1, 10 ** 6) for _ in vs])
+            ctx.count("import-order variants built after a disagreement", len(vs))
+            bad = [y for y in ys if not y["judge"] and not (classify(y["m0"])["known"] and known_symptom(y))]
+            if bad:
+                y = bad[0]
+                q = y["proj"]
+                n_viol += 1
+                ctx.violation("failing-input", "project on which erg violates the property (an import-order variant of a project on "
+                              "which the trace left the model: %s): %s" % (x["bad"][0][:200], describe(y)),
+                              case={"project": sample_of(q) | {"n": q["n"]}, "files": G.render(q)},
+                              impl={"stdout": y["obs"]["got"], "errors": y["obs"]["errors"], "analysed": y["obs"]["analysed"]},
+                              model={"intended": y["obs"]["want"], "known_classes": classify(y["m0"]), "mismatch": y["bad"]}, judge=False)
+                break
     if n_viol == 0 and corr:
         # model and erg disagree but every build passed the judge: look for a failing input among the disagreeing
         # projects under other schedules (the disagreement may only matter when the threads are timed differently)
